@@ -304,7 +304,14 @@ def pyscf_case(run, rng):
     mol.cart = rng.random() < 0.5
     nat = rng.randint(1, 4)
     syms = [rng.choice(["H", "O", "C"]) for _ in range(nat)]
-    mol._atom = [(s, [core.snap(rng.uniform(-2, 2), 8) for _ in range(3)]) for s in syms]
+    mol._atom = [(s, [core.snap(rng.uniform(-2, 2), 8) for _ in range(3)]) for s in syms]      # always Bohr, as in pyscf
+    # what a real Mole carries besides: the unit of the *input* geometry (pyscf's default is Angstrom), charge, spin, verbose ...
+    k = rng.randint(0, 3)
+    if k:
+        mol.unit = ["Angstrom", "Ang", "Bohr"][k - 1]
+        mol.atom = [(s, [x * (0.52917721092 if k < 3 else 1.0) for x in c]) for s, c in mol._atom]
+        mol.charge, mol.spin, mol.verbose = 0, 0, 0
+        run.count("Mole.unit=" + mol.unit)
     mol._basis = {}
     for s in set(syms):
         shells = []
